@@ -12,9 +12,10 @@ import SigpyVerif.Props.C09
   Proved here: the algebra (`coo_adjoint`, composition / sum / conjugation / stacking rules,
   `adj_denote` by structural induction over a leaf predicate `P`) and the leaf pairs Identity,
   Reshape, Slice↔Embed.  Props/C01Leaves.lean discharges the leaf hypothesis for Transpose, Resize,
-  Flip, Circshift, Down/Upsample, Sum/Tile, Multiply, ArrayToBlocks/BlocksToArray and
-  Interpolate/Gridding (`adj_denote_leaves`); only MatMul / RightMatMul remain validated by the exact
-  matrix correspondence alone.
+  Flip, Circshift, Down/Upsample, Sum/Tile, Multiply, Props/C01MatMul.lean for MatMul / RightMatMul,
+  Props/C01LeavesGen.lean for ArrayToBlocks/BlocksToArray and Interpolate/Gridding (`adj_denote_leaves`);
+  Props/C01Gen.lean ties `adj` to the translation of every `_adjoint_linop`; Props/C01Ext.lean and
+  Props/C01Fft.lean import convolution and FFT leaves from C08 / C05.
 -/
 set_option linter.unusedSectionVars false
 namespace SigpyVerif.C01
